@@ -80,6 +80,7 @@ type pathCtx struct {
 	stubsUsed map[string]bool
 	assertSites map[string]bool
 	assumes int
+	freshVars map[string]bool // declared inputs not yet mentioned in any term
 }
 
 type killPath struct{ why string }
@@ -96,6 +97,13 @@ func newPathCtx(sol *solver, prefix []bool, harness string) *pathCtx {
 }
 
 func (px *pathCtx) emit(line string) {
+	if len(px.freshVars) > 0 && !strings.HasPrefix(line, "(declare-const") {
+		for v := range px.freshVars {
+			if strings.Contains(line, v) {
+				delete(px.freshVars, v)
+			}
+		}
+	}
 	px.sol.send(line)
 	px.script.WriteString(line)
 	px.script.WriteByte('\n')
@@ -119,6 +127,10 @@ func (px *pathCtx) fresh(base string, k skind, w int) sym {
 	s.t = "v" + strconv.Itoa(px.nsym) + "_" + sanitize(base)
 	px.emit("(declare-const " + s.t + " " + s.sort() + ")")
 	px.inputs = append(px.inputs, inputVar{name: base + "#" + strconv.Itoa(n), base: base, term: s.t, s: s})
+	if px.freshVars == nil {
+		px.freshVars = map[string]bool{}
+	}
+	px.freshVars[s.t] = true
 	return s
 }
 
@@ -164,8 +176,14 @@ func (px *pathCtx) branch(c sym, why string) bool {
 	if len(px.trace) >= px.i.cfg.MaxDecisions {
 		panic(budgetExceeded{fmt.Sprintf("more than %d decisions on one path (unwinding bound)", px.i.cfg.MaxDecisions)})
 	}
-	rt := px.feasible(c.t)
-	rf := px.feasible("(not " + c.t + ")")
+	var rt, rf string
+	if c.k == kBool && px.freshVars[c.t] {
+		// an unconstrained fresh boolean: both sides are feasible
+		rt, rf = "sat", "sat"
+	} else {
+		rt = px.feasible(c.t)
+		rf = px.feasible("(not " + c.t + ")")
+	}
 	if rt == "error" || rf == "error" {
 		panic(unsupported{"solver error at branch: " + strings.Join(px.sol.errs, "; ")})
 	}
@@ -238,6 +256,35 @@ func (px *pathCtx) choose(s sym, lo, hi int64, signed bool, why string) int64 {
 	}
 	px.assertTerm(eq)
 	return hi
+}
+
+// chooseFresh case-splits a fresh variable constrained only to [lo,hi]:
+// every value is feasible, so no solver query is needed.
+func (px *pathCtx) chooseFresh(s sym, lo, hi int64) int64 {
+	v := lo
+	for ; v < hi; v++ {
+		taken := true
+		if px.pos < len(px.prefix) {
+			taken = px.prefix[px.pos]
+			px.pos++
+			px.trace = append(px.trace, decision{v: taken})
+		} else {
+			alt := make([]bool, 0, len(px.trace)+1)
+			for _, t := range px.trace {
+				alt = append(alt, t.v)
+			}
+			alt = append(alt, false)
+			px.res.alternates = append(px.res.alternates, alt)
+			px.trace = append(px.trace, decision{v: true})
+			px.pos++
+		}
+		px.res.forks++
+		if taken {
+			break
+		}
+	}
+	px.assertTerm("(= " + s.t + " " + bvLit(uint64(v), s.w) + ")")
+	return v
 }
 
 // inRange forks on lo <= s <= hi (signed compare for BV) and returns
